@@ -114,6 +114,12 @@ class Sym:
     def __rpow__(self, o):
         raise Unsupported("constant ** symbolic")
 
+    def __mod__(self, o):
+        raise Unsupported("modulo of a symbolic value (piecewise in the parameter)")
+
+    def __rmod__(self, o):
+        raise Unsupported("modulo by a symbolic value")
+
     # --- elementary functions (numpy calls these methods on object arrays)
     def exp(self):
         # exp(x) with x = i*y, y real-linear
